@@ -69,12 +69,13 @@ def native_run(call, inputs, repo=REPO):
     return json.loads(p.stdout)
 
 
-def replay_inputs(desc, inputs, repo=REPO):
+def replay_inputs(desc, inputs, repo=REPO, call=None):
     """run the real code natively on `inputs`, then evaluate the script's clauses on the native result"""
     from pyvc.driver import run_script
-    # the native call descriptor is produced by the script itself (refute mode, same sizes)
-    probe = run_script(desc, mode="refute", sizes=collections.defaultdict(lambda: None, {k: v for k, v in inputs.items() if isinstance(v, int)}), repo=repo)
-    call = getattr(probe, "native_desc", None)
+    if call is None:
+        # the native call descriptor is produced by the script itself (refute mode, same sizes)
+        probe = run_script(desc, mode="refute", sizes=collections.defaultdict(lambda: None, {k: v for k, v in inputs.items() if isinstance(v, int)}), repo=repo)
+        call = getattr(probe, "native_desc", None)
     if call is None:
         return {"status": "no-native-adapter"}
     out = native_run(call, inputs, repo)
@@ -95,7 +96,7 @@ def job(args):
     S = run_script(desc, repo=repo)
     out = {"script": name, "props": desc["props"], "paths": S.paths, "path_ends": S.path_ends, "wall": S.wall,
            "error": S.error, "dropped": S.dropped, "vacuity": S.vacuity, "executed": getattr(S, "executed", {}),
-           "results": [res_dict(r, S.label) for r in S.results], "counterexamples": []}
+           "results": [res_dict(r, S.label) for r in S.results], "counterexamples": [], "native_desc": getattr(S, "native_desc", None)}
     # clauses covered by a recorded known finding are decided by replaying the recorded witness, not by a new search
     failed = [r for r in out["results"] if r["status"] in ("failed", "unknown") and not r.get("known_id")]
     if failed and S.error is None:
@@ -264,7 +265,7 @@ def run_property(prop, tier):
             if match:
                 f = match[0]
                 desc = find_script(o["script"])
-                rep = replay_inputs(desc, f["witness"])
+                rep = replay_inputs(desc, f["witness"], call=o.get("native_desc"))
                 viol = [v for v in rep.get("verdicts", []) if v[0] == r["clause"] and v[1] == "violated"]
                 if viol:
                     ndis += 1   # the clause is discharged outside the carve-out (separate obligation) and the recorded witness still fails
